@@ -114,7 +114,11 @@ func doCall(w ion.Writer, c CallJ) error {
 		return w.WriteSymbol(badToken)
 	case "badnull":
 		// a Type value that names no Ion type
-		return w.WriteNullType(ion.Type(200 + c.Pick%50))
+		// (the first one past StructType as often as all the others together)
+		if c.Pick%2 == 0 {
+			return w.WriteNullType(ion.StructType + 1)
+		}
+		return w.WriteNullType(ion.Type([]int{15, 16, 31, 32, 127, 128, 200, 201, 249, 254, 255}[(c.Pick/2)%11]))
 	case "begin:list":
 		return w.BeginList()
 	case "begin:sexp":
@@ -460,6 +464,9 @@ func genC12(t *rapid.T) C12Case {
 			}
 		case k == 18:
 			call = CallJ{Op: gen.Pick(t, []string{"isinstruct", "fieldname", "badtoken-fieldname", "badtoken-annotation", "badtoken-symbol", "badnull"})}
+			if call.Op == "badnull" {
+				call.Pick = gen.Intn(t, 22)
+			}
 			if call.Op == "fieldname" {
 				call.Syms = []model.Sym{c12Sym(t)}
 			}
